@@ -103,6 +103,10 @@ fn replay(args: &[String]) -> i32 {
         if line.trim().is_empty() {
             continue;
         }
+        // (reading the input is work too: keep the watchdog quiet)
+        if ln % 256 == 0 {
+            TICK.fetch_add(1, std::sync::atomic::Ordering::Relaxed);
+        }
         match serde_json::from_str::<Value>(&line) {
             Ok(v) => lines.push((ln, v)),
             Err(e) => {
